@@ -830,34 +830,27 @@ fn run_reader(plan: &Plan, image: &[u8], verbose: bool) -> Report {
             Err(AsepriteParseError::IoError(e)) => {
                 facts.outcome = format!("err:IoError:{}", kind.name());
                 let err: &dyn std::error::Error = l.result.as_ref().err().unwrap();
-                let src_ok = err
-                    .source()
-                    .and_then(|s| s.downcast_ref::<std::io::Error>())
-                    .map(|s| kind.matches(s))
-                    .unwrap_or(false);
-                if !kind.matches(e) {
+                let src_io = err.source().and_then(|s| s.downcast_ref::<std::io::Error>());
+                if src_io.is_none() {
                     Some(mk(
                         "io-error-not-returned",
-                        "IoError carries a different error than the one the reader reported".into(),
-                        format!("injected {} got kind {:?} raw {:?}", kind.name(), e.kind(), e.raw_os_error()),
-                    ))
-                } else if !src_ok {
-                    Some(mk(
-                        "io-error-not-returned",
-                        "Error::source() does not expose the reader's io::Error".into(),
+                        "Error::source() does not expose an io::Error".into(),
                         format!("injected {}", kind.name()),
                     ))
-                } else if !kind.is_raw() && !crate::simreader::carries_sim_error(e) {
-                    // "carrying that error": an error of the same kind made up by the loader is
-                    // not the error the reader reported (its payload, message and source are gone)
+                } else if !crate::simreader::carried(kind, e) || !crate::simreader::carried(kind, src_io.unwrap()) {
+                    // "carrying that error as its source": the reported error must be the returned
+                    // io::Error or be reachable down its source() chain (context wrapping is fine);
+                    // a fresh error of the same kind, or of another kind, is not that error
                     Some(mk(
                         "io-error-not-returned",
-                        "IoError carries a fresh error of the same kind, not the error object the reader reported".into(),
-                        format!("injected {} got {:?}", kind.name(), e),
+                        "IoError does not carry the error the reader reported (neither itself nor down its source chain)".into(),
+                        format!("injected {} got {:?} (kind {:?} raw {:?})", kind.name(), e, e.kind(), e.raw_os_error()),
                     ))
                 } else {
                     if e.get_ref().map(|p| p.is::<crate::simreader::SimIoError>()).unwrap_or(false) {
                         facts.probes.push("error-object-survived".into());
+                    } else if !kind.is_raw() {
+                        facts.probes.push("error-object-carried-down-the-source-chain".into());
                     }
                     None
                 }
